@@ -13,6 +13,7 @@ import JunoModel.C01.ProofsVersion
 import JunoModel.C01.ProofsStateL
 import JunoModel.C01.ProofsChain
 import JunoModel.C01.ProofsMigrate
+import JunoModel.C01.ProofsLegacyState
 /-!
 C01 — property theorems (statements only; helper lemmas are in `Proofs*.lean`).
 Every theorem in this module is an obligation listed in evidence/C01.json with its axioms.
@@ -617,6 +618,80 @@ example :
          some (Trie2.hashRoot .pedersen (Trie2.update .nil State.slot7
            (State.contractLeaf (.felt 5) (.felt 0) (.felt 1)))).1)
      | _, _ => false) = true := by decide
+
+
+/-! ## `core/deprecatedstate` transcribed (round 5)
+
+`State.run false` (above) is core/state's algorithm with the purge switched off. `LState.run`
+(`ModelLegacyState.lean`) is `core/deprecatedstate.State.Update` statement by statement: no records and no state
+objects but a class-hash bucket, a nonce bucket and a storage trie per address; after EVERY single change
+(`putNewContract`, `replaceContract`, `updateContractNonce`) the leaf of that address is recomputed from the three
+stores and `Put` into the contract trie, so one block may write the leaf of an address several times;
+`updateContractStorages` deploys the system contracts of the diff, writes every storage trie and only then
+recomputes the leaves. `purge = true` is the backend with the proposed repair of known finding 1
+(`purgesystemContracts()` at the end of `Update`), `purge = false` the unchanged tree. -/
+
+/-- **The legacy backend (transcribed, with the proposed repair) computes the protocol commitment** of the abstract
+state after any sequence of accepted updates. -/
+theorem legacy_transcribed_state_commitment_spec (pre014 : Bool) (ds : List State.Diff)
+    (hd : ∀ d ∈ ds, State.ValidDiff d) (ls : LState.LSt)
+    (h : LState.run true ds LState.LSt.empty = some ls) :
+    LState.commitment pre014 ls = State.absCommitment pre014 (State.absState ds) := by
+  obtain ⟨_, hok⟩ := LState.run_ok true ds hd _ ls _ _ LState.lok_empty (Or.inl rfl) h
+  exact LState.commitment_ok hok pre014
+
+/-- The UNCHANGED legacy backend (transcribed). The full statement is false (known finding 1, witness below);
+proved for histories in which no block leaves a system contract whose storage it writes empty. -/
+theorem legacy_transcribed_state_commitment_spec_partial (pre014 : Bool) (ds : List State.Diff)
+    (hd : ∀ d ∈ ds, State.ValidDiff d) (hk : State.NoSystemContractEmptied State.AbsSt.empty ds) (ls : LState.LSt)
+    (h : LState.run false ds LState.LSt.empty = some ls) :
+    LState.commitment pre014 ls = State.absCommitment pre014 (State.absState ds) := by
+  obtain ⟨_, hok⟩ := LState.run_ok false ds hd _ ls _ _ LState.lok_empty (Or.inr hk) h
+  exact LState.commitment_ok hok pre014
+
+set_option maxRecDepth 8000 in
+/-- negation witness on the transcription: "write 0 to slot 7 of contract 0x1" is accepted by the unchanged legacy
+backend and leaves a root that is not the protocol commitment (which is 0); the repaired backend computes 0 -/
+theorem legacy_transcribed_state_commitment_not_protocol :
+    (LState.run false [State.zeroWriteToSystemContract] LState.LSt.empty).map (LState.commitment true) ≠
+      some (State.absCommitment true (State.absState [State.zeroWriteToSystemContract])) ∧
+    (LState.run true [State.zeroWriteToSystemContract] LState.LSt.empty).map (LState.commitment true) =
+      some (State.absCommitment true (State.absState [State.zeroWriteToSystemContract])) := by
+  rw [State.absCommitment_zeroWrite]
+  decide
+
+/-- **Which state implementation is selected does not matter** — each side now a transcription of its own code:
+the eager per-field algorithm of core/deprecatedstate and the state-object algorithm of core/state compute the
+same root (both the commitment of the abstract state), unless a system contract is emptied (unchanged tree). -/
+theorem state_backends_agree_transcribed_partial (pre014 : Bool) (ds : List State.Diff)
+    (hd : ∀ d ∈ ds, State.ValidDiff d) (hk : State.NoSystemContractEmptied State.AbsSt.empty ds)
+    (ls : LState.LSt) (s : State.St)
+    (hl : LState.run false ds LState.LSt.empty = some ls) (hs : State.run true ds State.St.empty = some s) :
+    LState.commitment pre014 ls = State.commitment pre014 s := by
+  rw [legacy_transcribed_state_commitment_spec_partial pre014 ds hd hk ls hl, state_commitment_spec pre014 ds hd s hs]
+
+/-- ... and with the proposed repair of the legacy backend, on every history. -/
+theorem state_backends_agree_transcribed_after_fix (pre014 : Bool) (ds : List State.Diff)
+    (hd : ∀ d ∈ ds, State.ValidDiff d) (ls : LState.LSt) (s : State.St)
+    (hl : LState.run true ds LState.LSt.empty = some ls) (hs : State.run true ds State.St.empty = some s) :
+    LState.commitment pre014 ls = State.commitment pre014 s := by
+  rw [legacy_transcribed_state_commitment_spec pre014 ds hd ls hl, state_commitment_spec pre014 ds hd s hs]
+
+set_option maxRecDepth 8000 in
+/-- non-vacuity: a block that declares a class, deploys 0x7 with it, replaces its class, sets its nonce and writes one
+of its slots and one slot of system contract 0x1 (the leaf of 0x7 is written four times), then a block that zeroes
+the slot of 0x1: accepted by both variants; the repaired one ends with the root of the state without 0x1 -/
+example :
+    (LState.run false [⟨[(State.slot7, .felt 9)], [], [(State.slot7, .felt 5)], [(State.slot7, .felt 6)], [(State.slot7, .felt 1)],
+        [(State.slot7, [(State.addr1, .felt 3)]), (State.addr1, [(State.slot7, .felt 4)])]⟩,
+      ⟨[], [], [], [], [], [(State.addr1, [(State.slot7, .felt 0)])]⟩] LState.LSt.empty).isSome = true ∧
+    (LState.run true [⟨[(State.slot7, .felt 9)], [], [(State.slot7, .felt 5)], [(State.slot7, .felt 6)], [(State.slot7, .felt 1)],
+        [(State.slot7, [(State.addr1, .felt 3)]), (State.addr1, [(State.slot7, .felt 4)])]⟩,
+      ⟨[], [], [], [], [], [(State.addr1, [(State.slot7, .felt 0)])]⟩] LState.LSt.empty).map (LState.commitment true) =
+    (State.run true [⟨[(State.slot7, .felt 9)], [], [(State.slot7, .felt 5)], [(State.slot7, .felt 6)], [(State.slot7, .felt 1)],
+        [(State.slot7, [(State.addr1, .felt 3)]), (State.addr1, [(State.slot7, .felt 4)])]⟩,
+      ⟨[], [], [], [], [], [(State.addr1, [(State.slot7, .felt 0)])]⟩] State.St.empty).map (State.commitment true) := by
+  decide
 
 /-! ## Lead: `Trie.Update` of core/trie2 keeps the caller's value POINTER (round 4)
 
